@@ -424,6 +424,21 @@ func genCase(r *gen.Rand) tcase {
 	if r.Chance(1, 3) {
 		c.start = c.start / c.step * c.step
 	}
+	if r.Chance(1, 4) {
+		// boundary stream: some step lands exactly on (a sample + lookback) or on a sample
+		for try := 0; try < 4; try++ {
+			s := c.ser[r.Intn(len(c.ser))]
+			if len(s.ts) == 0 {
+				continue
+			}
+			t := s.ts[r.Intn(len(s.ts))]
+			if r.Chance(2, 3) {
+				t += c.lookback
+			}
+			c.start = t - int64(r.Intn(c.n))*c.step
+			break
+		}
+	}
 	if c.start < 1 {
 		c.start = 1
 	}
@@ -1249,6 +1264,9 @@ func corpus() []tcase {
 	// gap longer than the lookback; steps larger than the range
 	l = append(l, tcase{lookback: 20000, iv: 5000, ser: []pseries{regular("a", "x", 600000, 5000, 1, 2, 3), regular("b", "y", 650000, 5000, 5, 6, 7, 8)},
 		start: 600000, step: 13000, n: 7, t0: 600000, t1: 665000, corpus: "gap"})
+	// steps exactly at sample + lookback (absent there, present one step earlier)
+	l = append(l, tcase{lookback: 20000, iv: 5000, ser: []pseries{regular("a", "x", 600000, 5000, 1, 2, 3), regular("b", "y", 640000, 5000, 5, nan, 7)},
+		start: 610000, step: 5000, n: 12, t0: 600000, t1: 650000, corpus: "lookback-edge"})
 	// single step
 	l = append(l, tcase{lookback: 300000, iv: 5000, ser: []pseries{regular("a", "x", 600000, 5000, 3, 1, 4, 1, 5)},
 		start: 612345, step: 1000, n: 1, t0: 600000, t1: 620000, corpus: "single-step"})
